@@ -688,6 +688,10 @@ impl Encoder for Tracer {
 /// is discarded and counted; an untripped one is re-run on the plain `PostcardDecoder`.
 pub struct Guard<'a> { inner: PostcardDecoder<&'a [u8]>, tripped: bool, limit: usize }
 const LIMIT: usize = 1 << 16;
+/// `--guarded`: also the valid-value stages stop at absurd lengths (used by the plugin to re-run a shard after the
+/// real decoder aborted the process on an allocation failure, so that a concrete failing input is still found)
+static GUARDED: AtomicBool = AtomicBool::new(false);
+fn vlimit() -> usize { if GUARDED.load(Ordering::Relaxed) { LIMIT } else { usize::MAX } }
 impl<'a> Guard<'a> {
     fn new(stream: &'a [u8], limit: usize) -> Self { Guard { inner: PostcardDecoder::new(stream), tripped: false, limit } }
     fn remaining(&self) -> usize { self.inner.get_ref().len() }
@@ -709,7 +713,12 @@ impl<'a> Decoder for Guard<'a> {
     fn read_i64(&mut self) -> io::Result<i64> { self.inner.read_i64() }
     fn read_i128(&mut self) -> io::Result<i128> { self.inner.read_i128() }
     fn read_isize(&mut self) -> io::Result<isize> { self.inner.read_isize() }
-    fn read_raw_bytes(&mut self, len: usize) -> io::Result<Vec<u8>> { self.inner.read_raw_bytes(len) }
+    fn read_raw_bytes(&mut self, len: usize) -> io::Result<Vec<u8>> {
+        // `PostcardDecoder::read_raw_bytes` allocates `len` zeroed bytes and then fails with UnexpectedEof when the
+        // input is shorter; answer the same without the allocation (which aborts the process when it is absurd)
+        if len > self.remaining() { return Err(io::Error::new(io::ErrorKind::UnexpectedEof, "failed to fill whole buffer")); }
+        self.inner.read_raw_bytes(len)
+    }
     fn read_bool(&mut self) -> io::Result<bool> { self.inner.read_bool() }
     fn read_char(&mut self) -> io::Result<char> { self.inner.read_char() }
     fn read_f32(&mut self) -> io::Result<f32> { self.inner.read_f32() }
@@ -867,9 +876,10 @@ pub fn registry() -> Vec<Entry> {
          AtomicBool, AtomicI8, AtomicI16, AtomicI32, AtomicI64, AtomicIsize, AtomicU8, AtomicU16, AtomicU32, AtomicU64, AtomicUsize,
          Box<str>, Rc<str>, Arc<str>, Box<Path>, Rc<Path>, Arc<Path>, Cow<'static, str>,
          BitVec<u8, Lsb0>, BitVec<u8, Msb0>);
-    // finding F7: stores wider than a byte (kept last in any stream, see `f7`)
+    // stores wider than a byte (finding F7, fixed by /repo e089897), alone and inside containers
     reg!(v; BitVec<u16, Lsb0>, BitVec<u16, Msb0>, BitVec<u32, Lsb0>, BitVec<u32, Msb0>, BitVec<u64, Lsb0>, BitVec<u64, Msb0>,
-         BitVec<usize, Lsb0>, BitVec<usize, Msb0>, (u8, BitVec<usize, Lsb0>), Option<BitVec<u32, Msb0>>);
+         BitVec<usize, Lsb0>, BitVec<usize, Msb0>, (u8, BitVec<usize, Lsb0>), Option<BitVec<u32, Msb0>>,
+         Vec<BitVec<usize, Lsb0>>, (BitVec<u16, Msb0>, String, BitVec<u64, Lsb0>));
     // depth 1: every unary constructor over a spread of leaves
     cross!(v; [Option, Vec, VecDeque, LinkedList, Box, Rc, Arc, RefCell, Wrapping, Reverse, Range, RangeInclusive,
                RangeFrom, RangeTo, RangeToInclusive, Bound, PhantomData, NamedS, TupleS, EnumE,
@@ -951,8 +961,9 @@ fn value_case(out: &mut Out, st: &mut Stats, stage: &str, e: &dyn Erased, depth:
     let bytes = enc.inner.into_inner();
     let j = junk(rng);
     let mut stream = bytes.clone(); stream.extend_from_slice(&j);
-    let mut dec = Guard::new(&stream[..], usize::MAX);
+    let mut dec = Guard::new(&stream[..], vlimit());
     let (o, same) = e.decode_cmp(&mut dec, plugin, false);
+    if dec.tripped { st.guard_skipped += 1; return; }
     let op = format!("V|{}|{}|{}", desc, val, hex(&j));
     let imp = format!("{}|{}", hex(&bytes), o.show());
     st.line(out, stage, &op, &imp, bytes.len() >= 2);
@@ -965,8 +976,7 @@ fn value_case(out: &mut Out, st: &mut Stats, stage: &str, e: &dyn Erased, depth:
 fn pair_case(out: &mut Out, st: &mut Stats, reg: &[Entry], rng: &mut Rng, plugin: &Plugin, size: u32) {
     let k = rng.range(2, 4) as usize;
     let mut idx: Vec<usize> = (0..k).map(|_| rng.below(reg.len() as u64) as usize).collect();
-    // a type hit by finding F7 desynchronises everything after it: allow it in the last position only
-    for i in 0..k - 1 { while reg[idx[i]].f7 { idx[i] = rng.below(reg.len() as u64) as usize; } }
+    // (finding F7 is fixed — /repo e089897 — so wide-store BitVecs may sit anywhere in the stream)
     let mut g = Gen { rng: Rng(rng.next()), size };
     let vals: Vec<Box<dyn Erased>> = idx.iter().map(|i| (reg[*i].mk)(&mut g)).collect();
     let mut enc = Tracer::new();
@@ -975,7 +985,7 @@ fn pair_case(out: &mut Out, st: &mut Stats, reg: &[Entry], rng: &mut Rng, plugin
     let bytes = enc.inner.into_inner();
     let j = junk(rng);
     let mut stream = bytes.clone(); stream.extend_from_slice(&j);
-    let mut dec = Guard::new(&stream[..], usize::MAX);
+    let mut dec = Guard::new(&stream[..], vlimit());
     let mut op = format!("P|{}", k);
     let mut imp = hex(&bytes);
     let mut bad: Option<(String, String)> = None;
@@ -991,6 +1001,7 @@ fn pair_case(out: &mut Out, st: &mut Stats, reg: &[Entry], rng: &mut Rng, plugin
         start = ends[n];
     }
     op.push_str(&format!("|{}", hex(&j)));
+    if dec.tripped { st.guard_skipped += 1; return; }
     st.line(out, "pairs", &op, &imp, true);
     if let Some((d, kind)) = bad { st.fail(format!("{kind}:{d}"), format!("back-to-back: element of type {d} {kind}; stream {}", hex(&bytes)), op); }
 }
@@ -1168,8 +1179,9 @@ fn interned_case<S: Shape>(out: &mut Out, st: &mut Stats, rng: &mut Rng) {
     if !mutated {
         let j = junk(rng);
         let mut stream = bytes.clone(); stream.extend_from_slice(&j);
-        let mut dec = Guard::new(&stream[..], usize::MAX);
+        let mut dec = Guard::new(&stream[..], vlimit());
         let r = decode_real::<S>(&mut dec, &dec_plugin);
+        if dec.tripped { st.guard_skipped += 1; return; }
         let consumed = stream.len() - dec.remaining();
         let (imp_o, ok) = match &r {
             Ok(d) => {
@@ -1210,6 +1222,24 @@ fn interned_case<S: Shape>(out: &mut Out, st: &mut Stats, rng: &mut Rng) {
     drop(v);
 }
 
+/// rebuild a BitVec from its descriptor `bv(W,O)` and rendering `b<len>:<w>.<w>…`
+fn corpus_bitvec(desc: &str, val: &str) -> Option<Box<dyn Erased>> {
+    let v = val.strip_prefix('b')?;
+    let (len, ws) = v.split_once(':')?;
+    let len: usize = len.parse().ok()?;
+    let words: Vec<u64> = if ws.is_empty() { vec![] } else { ws.split('.').map(|w| w.parse::<u64>().ok()).collect::<Option<Vec<_>>>()? };
+    macro_rules! mk { ($t:ty, $o:ty) => {{
+        let mut bv = BitVec::<$t, $o>::from_vec(words.iter().map(|w| *w as $t).collect());
+        if len > bv.len() { return None; }
+        bv.truncate(len);
+        Some(Box::new(Holder(bv)) as Box<dyn Erased>)
+    }}}
+    match desc {
+        "bv(8,L)" => mk!(u8, Lsb0), "bv(8,M)" => mk!(u8, Msb0), "bv(16,L)" => mk!(u16, Lsb0), "bv(16,M)" => mk!(u16, Msb0),
+        "bv(32,L)" => mk!(u32, Lsb0), "bv(32,M)" => mk!(u32, Msb0), "bv(64,L)" => mk!(u64, Lsb0), "bv(64,M)" => mk!(u64, Msb0),
+        "bv(size,L)" => mk!(usize, Lsb0), "bv(size,M)" => mk!(usize, Msb0), _ => None }
+}
+
 // ------------------------------------------------------------------------------------------------
 // main: stages, sharding, report
 // ------------------------------------------------------------------------------------------------
@@ -1224,6 +1254,7 @@ fn main() {
     while i < a.rest.len() {
         match a.rest[i].as_str() {
             "--shard" => { shard = (a.rest[i + 1].parse().unwrap(), a.rest[i + 2].parse().unwrap()); i += 3; }
+            "--guarded" => { GUARDED.store(true, Ordering::Relaxed); i += 1; }
             "--stages" => { stages = a.rest[i + 1].split(',').map(String::from).collect(); i += 2; }
             "--list-f7-sigs" => {
                 for e in registry().iter().filter(|e| e.f7) { for k in ["mismatch", "consumed", "error-eof", "error-invalid", "error-other", "panic"] { println!("{k}:{}", e.desc); } }
@@ -1241,9 +1272,23 @@ fn main() {
     for e in &reg { st.rust_types.insert(e.rust); st.descs.insert(e.desc.clone()); }
 
     if let Some(f) = &a.replay {
-        // replay file: op lines (V/P/M) re-run through the real code by descriptor lookup is not needed for the
-        // oracle: a replay carries the op line, the driver and this harness are deterministic in (seed, shard).
-        let _ = f;
+        // regression corpus: every `V|bv(W,O)|b<len>:<w>.<w>…` op line found in the file is rebuilt as a real BitVec
+        // and run first (finding F7, fixed by /repo commit e089897: must round-trip)
+        let text = std::fs::read_to_string(f).unwrap_or_default();
+        let mut rest = &text[..];
+        while let Some(i) = rest.find("V|bv(") {
+            let tail = &rest[i..];
+            let end = tail.find(|c: char| c == '"' || c == '\n').unwrap_or(tail.len());
+            let line = &tail[..end];
+            let parts: Vec<&str> = line.split('|').collect();
+            if parts.len() >= 3 {
+                match corpus_bitvec(parts[1], parts[2]) {
+                    Some(v) => value_case(&mut out, &mut st, "corpus", &*v, 0, &mut rng, &plugin),
+                    None => st.fail(format!("corpus-unreadable:{}", parts[1]), format!("corpus line not understood: {line}"), line.to_string()),
+                }
+            }
+            rest = &tail[end..];
+        }
     }
 
     if stages.iter().any(|s| s == "exh16") {
